@@ -739,7 +739,7 @@ func observeBulkValues(agg *sigAgg, kind string, n int, mk func(i int) *jen.Stat
 	observeBulk(agg, kind, n, mk, false)
 }
 
-// inDict: the literals are the VALUES of a Dict (keys k000, k001, ...) instead of the elements of a list
+// inDict: the literals are the VALUES of a Dict (keys k0000000, k0000001, ...: their text order is their number order) instead of the elements of a list
 func observeBulk(agg *sigAgg, kind string, n int, mk func(i int) *jen.Statement, inDict bool) {
 	differ, example := 0, ""
 	r := safely(func() ([]byte, error) {
@@ -748,7 +748,7 @@ func observeBulk(agg *sigAgg, kind string, n int, mk func(i int) *jen.Statement,
 		if inDict {
 			d := jen.Dict{}
 			for i := 0; i < n; i++ {
-				d[jen.Lit(fmt.Sprintf("k%03d", i))] = mk(i)
+				d[jen.Lit(fmt.Sprintf("k%07d", i))] = mk(i)
 			}
 			f.Var().Id("x").Op("=").Map(jen.String()).Interface().Values(d)
 		} else {
